@@ -860,7 +860,12 @@ impl PeerHandler {
             .ok_or(Error::PieceBuffMissing)
             .expect("Saving to file: piece data not exist after validation");
         let name = utils::hash_to_string(&piece_rx.hash) + ".piece";
-        match fs::write(name, &piece_rx.buff).await {
+        // File-system seam: the same write, spelled as its two steps (truncate, write).
+        #[cfg(feature = "verif")]
+        let res = crate::verif::write_file_in_two_steps(&name, &piece_rx.buff).await;
+        #[cfg(not(feature = "verif"))]
+        let res = fs::write(name, &piece_rx.buff).await;
+        match res {
             Ok(()) => Ok(()),
             Err(_) => Err(Error::FileCannotWrite),
         }
